@@ -143,6 +143,7 @@ fn sinkfail(k: usize) {
 }
 
 //@ obligation: U5.dump.sinkfail.0
+//@ cost: heavy
 //@ props: C13
 //@ fns: ChunkBuilder::dump
 //@ kind: bounded
@@ -185,6 +186,7 @@ fn u5_dump_sinkfail_12() {
 }
 
 //@ obligation: U5.dump.sinkfail.17
+//@ cost: heavy
 //@ props: C13
 //@ fns: ChunkBuilder::dump
 //@ kind: bounded
@@ -227,6 +229,7 @@ fn decode_uncompressed_nopanic(total: usize, len: u8) {
 }
 
 //@ obligation: U5.decode.trunc.18_4
+//@ cost: heavy
 //@ props: C13 C04
 //@ fns: Chunk::decode decode_chunk_header
 //@ kind: bounded
@@ -259,6 +262,7 @@ fn u5_decode_trunc_15_2() {
 }
 
 //@ obligation: U5.decode.trunc.18_2
+//@ cost: heavy
 //@ props: C13 C04
 //@ fns: Chunk::decode decode_chunk_header
 //@ kind: bounded
@@ -320,6 +324,48 @@ fn u5_decode_trunc_0_0() {
 #[kani::stub(alloc::fmt::format, fmt_stub)]
 fn u5_decode_trunc_20_2() {
     decode_uncompressed_nopanic(20, 2);
+}
+
+/// Assumed contracts for the two decompressors (C code behind FFI, assumption A4): on input that is
+/// not a valid compressed block they return an error. Only this error behaviour is used.
+fn lz4_decompress_stub(_src: &[u8], _uncompressed_size: Option<i32>) -> io::Result<Vec<u8>> {
+    Err(io::Error::from(io::ErrorKind::InvalidData))
+}
+fn zstd_decompress_stub(_data: &[u8], _capacity: usize) -> io::Result<Vec<u8>> {
+    Err(io::Error::from(io::ErrorKind::InvalidData))
+}
+
+fn short_compressed(clen: u8) {
+    // clen concrete: a chunk that claims `clen` compressed bytes (1..=4) followed by exactly that many
+    let mut b: [u8; 20] = kani::any();
+    b[4] = clen; b[5] = 0; b[6] = 0; b[7] = 0;
+    b[12] = 0; b[13] = 0; b[14] = 0; b[15] = 0;
+    let mut rd: &[u8] = &b[..16 + clen as usize];
+    let r = Chunk::decode(&mut rd);
+    // garbage of 1..=4 bytes is no valid LZ4/Zstd block (A4): an error, never a panic
+    assert!(r.is_err());
+    core::mem::forget(r);
+}
+
+//@ obligation: U5.decode.shortcomp
+//@ cost: heavy
+//@ props: C13 C04
+//@ fns: Chunk::decode
+//@ kind: bounded
+//@ bound: compressed chunks whose compressed payload is 1, 2, 3 or 4 arbitrary bytes; declared uncompressed length symbolic
+//@ checks: functional
+//@ timeout: 1500
+//@ note: the format sniffing (zstd magic) must not index past a short payload. lz4::block::decompress and zstd::bulk::decompress are replaced by assumed contracts (return Err on such input, A4)
+#[kani::proof]
+#[kani::unwind(5)]
+#[kani::stub(alloc::fmt::format, fmt_stub)]
+#[kani::stub(lz4::block::decompress, lz4_decompress_stub)]
+#[kani::stub(zstd::bulk::decompress, zstd_decompress_stub)]
+fn u5_decode_shortcomp() {
+    short_compressed(1);
+    short_compressed(2);
+    short_compressed(3);
+    short_compressed(4);
 }
 
 //@ canary: yes
